@@ -384,3 +384,6 @@ func CallerFile(file string, line int) {}
 // switches at blocking points, the running goroutine may be preempted up to n
 // times at synchronisation operations (locks, atomics, channel operations).
 func Preemptions(n int) {}
+
+// Debug prints values (engine: symbolic rendering) - harness development aid.
+func Debug(args ...interface{}) { fmt.Println(append([]interface{}{"RT-DEBUG:"}, args...)...) }
